@@ -51,6 +51,7 @@ type sseClientTransport struct {
 	closed       atomic.Bool   // Flag indicating if transport is closed.
 	retryConfig  *retry.Config // Retry configuration for requests.
 	endpointChan chan struct{} // Channel to signal when endpoint is received.
+	endpointOnce sync.Once     // The endpoint is taken from the first endpoint event only.
 	logger       Logger        // Logger for this client transport.
 
 	// Fields for HTTP request handler configuration
@@ -290,8 +291,17 @@ func (t *sseClientTransport) handleEndpointEvent(endpointURL string) {
 		parsedURL = t.baseURL.ResolveReference(parsedURL)
 	}
 
-	t.endpoint = parsedURL
-	close(t.endpointChan) // Signal that the endpoint has been received.
+	// Only the first endpoint event counts: a repeated one must neither close the channel again nor
+	// change the endpoint under the feet of concurrent senders.
+	first := false
+	t.endpointOnce.Do(func() {
+		first = true
+		t.endpoint = parsedURL
+		close(t.endpointChan) // Signal that the endpoint has been received.
+	})
+	if !first && t.logger != nil {
+		t.logger.Warnf("Ignoring repeated endpoint event: %s", endpointURL)
+	}
 }
 
 // handleMessageEvent processes message events from the server.
